@@ -264,6 +264,17 @@ def inverse1d(ctx, rng, idx):
             exp = [ri * rr, ws + (ui - ws) / rr, np.full(n, pe)]
     ctx.describe(bc=name, dir=d, gamma=gam, params=par, interior=[ri[:4], ui[:4], pi[:4]], expected=[e[:4] for e in exp])
     got = model.namedBC(name, d, [ri.copy(), ui.copy(), pi.copy()], par)
+    # elementwise: the boundary state of one face must not depend on which other faces are in the same call
+    for sname, msk in {"first-one": np.arange(n) < 1, "random-half": rng.random(n) < 0.5, "slowest-quarter": np.abs(ui) <= np.quantile(np.abs(ui), 0.25),
+                       "fastest-quarter": np.abs(ui) >= np.quantile(np.abs(ui), 0.75)}.items():
+        if not np.any(msk):
+            continue
+        with probes.quiet():
+            sub_ = model.namedBC(name, d, [ri[msk].copy(), ui[msk].copy(), pi[msk].copy()], dict(par))
+        for i in range(3):
+            a_, b_ = np.broadcast_to(_arr(sub_[i]), (int(msk.sum()),)), np.broadcast_to(_arr(got[i]), (n,))[msk]
+            same = (a_ == b_) | (np.isnan(a_) & np.isnan(b_))
+            ctx.true("bc-elementwise", bool(np.all(same)), "inverse1d/%s/state-depends-on-the-other-faces-of-the-call" % name, None if np.all(same) else {"subset": sname, "component": i}, cls="inverse:1d")
     # the same interior states one by one as python floats / numpy scalars (this is how fvm1d calls the conditions)
     for j in rng.integers(0, n, 4):
         for cast in (float, np.float64):
@@ -332,6 +343,19 @@ def inverse2d(ctx, rng, idx):
             exp = [np.full(n, rb), mb * np.sqrt(gam * pb / rb) * dvec, np.full(n, pb)]
     ctx.describe(bc=name, side=["left", "right", "bottom", "top"][side], gamma=gam, params=par, interior=[ri[:3], Vi[:, :3], pi[:3]])
     got = model.namedBC(par["type"], nrm, [ri.copy(), Vi.copy(), pi.copy()], par)
+    vn_ = np.abs(Vi[0] * nrm[0] + Vi[1] * nrm[1])
+    for sname, msk in {"first-one": np.arange(n) < 1, "random-half": rng.random(n) < 0.5, "smallest-normal-velocities": vn_ <= np.quantile(vn_, 0.25),
+                       "largest-normal-velocities": vn_ >= np.quantile(vn_, 0.75)}.items():
+        if not np.any(msk):
+            continue
+        with probes.quiet():
+            sub_ = model.namedBC(par["type"], nrm[:, msk], [ri[msk].copy(), Vi[:, msk].copy(), pi[msk].copy()], dict(par))
+        for i in range(3):
+            b_ = np.asarray(got[i], float)
+            b_ = np.broadcast_to(b_, (2, n) if i == 1 else (n,))[..., msk]
+            a_ = np.broadcast_to(np.asarray(sub_[i], float), b_.shape)
+            same = (a_ == b_) | (np.isnan(a_) & np.isnan(b_))
+            ctx.true("bc-elementwise", bool(np.all(same)), "inverse2d/%s/state-depends-on-the-other-faces-of-the-call" % name, None if np.all(same) else {"subset": sname, "component": i}, cls="inverse:2d")
     cond = 1.0 + (1.0 / mb ** 2 if name in ("insub", "insup", "insup-angle") else 0.0)
     sc = [np.abs(exp[0]), np.sqrt(gam * np.abs(exp[2] / exp[0])) * (1 + mi), np.abs(exp[2])]
     for i, nm in enumerate(["density", "velocity", "pressure"]):
